@@ -1,0 +1,54 @@
+//go:build verif
+
+package v2
+
+// Contracts for the verif build tag only (comment-only file; see /verif/DESIGN.md).
+// C12: what a decoded message may contain, whatever bytes were received.
+
+//@ -- a CID is "the sum of" some bytes when a CID prefix hashed exactly these bytes to it
+//@ fn isSumOf(c ref, data []byte) bool
+//@ func github.com/ipfs/go-cid.PrefixFromBytes
+//@   assumed
+//@   modifies nothing
+//@ func github.com/ipfs/go-cid.Prefix.Sum
+//@   assumed
+//@   modifies nothing
+//@   ensures result1 == nil ==> isSumOf(result0, data)
+//@ func github.com/ipfs/go-graphsync/message.NewMessage
+//@   inline
+
+//@ -- a message that decodes holds only request IDs of 16 bytes, and every block is keyed by the CID computed from its own bytes
+//@ func MessageHandler.fromIPLD
+//@   lenient
+//@   requires ibm != nil
+//@   modifies alloc, allmaps("map[graphsync.RequestID]message.GraphSyncRequest"), allmaps("map[graphsync.RequestID]message.GraphSyncResponse"), allmaps("map[cid.Cid]blocks.Block")
+//@   ensures result1 == nil ==> (forall id graphsync.RequestID :: id in result0.requests ==> ridBytesLen(id) == 16)
+//@   ensures result1 == nil ==> (forall id graphsync.RequestID :: id in result0.responses ==> ridBytesLen(id) == 16)
+//@   ensures result1 == nil ==> (forall k cid.Cid :: k in result0.blocks ==> blkCid(result0.blocks[k]) == k && isSumOf(k, blkData(result0.blocks[k])))
+//@   loop 1 invariant forall id graphsync.RequestID :: id in requests ==> ridBytesLen(id) == 16
+//@   loop 2 invariant forall id graphsync.RequestID :: id in requests ==> ridBytesLen(id) == 16
+//@   loop 2 invariant forall id graphsync.RequestID :: id in responses ==> ridBytesLen(id) == 16
+//@   loop 3 invariant forall id graphsync.RequestID :: id in requests ==> ridBytesLen(id) == 16
+//@   loop 3 invariant forall id graphsync.RequestID :: id in responses ==> ridBytesLen(id) == 16
+//@   loop 3 invariant forall k cid.Cid :: k in blks ==> blkCid(blks[k]) == k && isSumOf(k, blkData(blks[k]))
+
+//@ -- bindnode yields a pointer to a freshly built value of the registered type
+//@ func github.com/ipld/go-ipld-prime/node/bindnode/registry.BindnodeRegistry.TypeFromBytes
+//@   assumed
+//@   modifies alloc
+//@   ensures result1 == nil ==> result0 != nil
+//@ -- what comes out of the wire decoder is what fromIPLD lets through (a panic in the codec or in the type
+//@ -- assertion below is recovered by the stream handler: see network.handleNewStream)
+//@ func MessageHandler.FromMsgReader
+//@   lenient
+//@   safety off
+//@   modifies alloc, allmaps("map[graphsync.RequestID]message.GraphSyncRequest"), allmaps("map[graphsync.RequestID]message.GraphSyncResponse"), allmaps("map[cid.Cid]blocks.Block")
+//@   ensures result1 == nil ==> (forall id graphsync.RequestID :: id in result0.requests ==> ridBytesLen(id) == 16)
+//@   ensures result1 == nil ==> (forall id graphsync.RequestID :: id in result0.responses ==> ridBytesLen(id) == 16)
+//@   ensures result1 == nil ==> (forall k cid.Cid :: k in result0.blocks ==> blkCid(result0.blocks[k]) == k && isSumOf(k, blkData(result0.blocks[k])))
+//@ func MessageHandler.FromNet
+//@   lenient
+//@   safety off
+//@   modifies alloc, allmaps("map[graphsync.RequestID]message.GraphSyncRequest"), allmaps("map[graphsync.RequestID]message.GraphSyncResponse"), allmaps("map[cid.Cid]blocks.Block")
+//@   ensures result1 == nil ==> (forall id graphsync.RequestID :: id in result0.requests ==> ridBytesLen(id) == 16)
+//@   ensures result1 == nil ==> (forall k cid.Cid :: k in result0.blocks ==> blkCid(result0.blocks[k]) == k && isSumOf(k, blkData(result0.blocks[k])))
